@@ -10,7 +10,7 @@ from hypothesis import strategies as st
 
 import config_inject
 import datagen
-from core import Rejected, guarded, require, scratch_dir
+from core import Rejected, Violation, guarded, require, scratch_dir
 from refs import tdc_ref
 
 ID = "C03"
@@ -24,7 +24,8 @@ RULE = (
     "case = 1-3 collections built from drawn spectrum multiplicities (1-4) and a small peptide pool (peptides recur "
     "across spectra), optional extra level columns, label encoding, score vector distinct (class A) or with exact "
     "ties (class B), flags deduplication/do_rollup/decoys/prefixes, tsv/parquet, confidence and merge chunk sizes, "
-    "workers; optionally the written result files are fed to brew_rollup.main. Non-trivial: some spectrum has >=2 "
+    "workers; optionally the written result files are fed to brew_rollup.main; per shard one (quick) / six (thorough) "
+    "command-line runs with and without --skip_deduplication. Non-trivial: some spectrum has >=2 "
     "PSMs whose best is not first in file order and some peptide is carried by >=2 retained PSMs. Distinct = "
     "distinct canonical JSON."
 )
@@ -113,6 +114,9 @@ def _close(a, b, rtol=1e-12):
 
 
 def check(case):
+    if case.get("cli"):
+        info = _cli_case(case["seed"])
+        return {"nontrivial": True, "classes": ["cli-skip-deduplication"], "counters": {"cli_runs": 2, "rows_checked": info["rows"]}}
     import mokapot
     from mokapot import brew_rollup
     import mokapot.peps as mpeps
@@ -448,3 +452,72 @@ def _check_tool(case, src, tmp, counters, brew_rollup, mpeps):
             require(abs(float(d["q_value"]) - r) <= 2.5e-7 * r + 1e-12, "tool-qvalue", f"level {lv}: {pid} q {d['q_value']} vs {qref[pid]}")
             counters["qvalues_checked"] += 1
     return True
+
+
+# ---------------------------------------------------------------------------
+# Command-line path: the de-duplication switch must reach assign_confidence (and the same competition rule applies)
+# ---------------------------------------------------------------------------
+def _cli_case(seed):
+    import contextlib
+    import io
+
+    from mokapot import mokapot as cli
+
+    rng = np.random.default_rng(seed)
+    ns = int(rng.integers(120, 200))
+    mults = [int(x) for x in rng.integers(1, 4, ns)]
+    df, meta = datagen.psm_frame(seed, mults, key_arity=2, n_noise=2, sep=3.5, with_rid=False, n_peptides=60)
+    for c in ("f0", "f1", "f2"):
+        df[c] = df[c].round(5)
+    key = list(zip(df["ScanNr"].tolist(), df["ExpMass"].tolist()))
+    out = {}
+    with scratch_dir() as tmp:
+        for flag in (True, False):
+            pin = tmp / f"in_{int(flag)}.pin"
+            df.to_csv(pin, sep="\t", index=False)
+            dest = tmp / f"out_{int(flag)}"
+            args = [str(pin), "--dest_dir", str(dest), "--max_iter", "1", "--folds", "2", "--train_fdr", "0.3", "--test_fdr", "0.3",
+                    "--keep_decoys", "--verbosity", "0", "--seed", "7", "--peps_algorithm", "hist_nnls"]
+            if flag:
+                args.append("--skip_deduplication")
+            with contextlib.redirect_stderr(io.StringIO()), contextlib.redirect_stdout(io.StringIO()):
+                guarded(cli.main, args, allowed=[(RuntimeError, "No PSMs|Failed to calibrate"), (ValueError, "unique scoring bins"), (SystemExit, ".*")],
+                        sig="cli")
+            t = _read(dest / "targets.psms")
+            d = _read(dest / "decoys.psms")
+            out[flag] = pd.concat([t.assign(_t=True), d.assign(_t=False)])
+    full, dedup = out[True], out[False]
+    n = len(df)
+    require(len(full) == n and set(full["PSMId"]) == set(df["SpecId"]), "cli-skip-deduplication-ignored",
+            f"--skip_deduplication: {len(full)} PSMs in the PSM-level results for {n} input PSMs ({ns} spectra)")
+    score = dict(zip(full["PSMId"], full["score"]))
+    kof = dict(zip(df["SpecId"], key))
+    best = {}
+    for pid, s in score.items():
+        k = kof[pid]
+        if k not in best or s > best[k][0]:
+            best[k] = (s, {pid})
+        elif s == best[k][0]:
+            best[k][1].add(pid)
+    require(len(dedup) == len(best), "cli-dedup-count", f"default run: {len(dedup)} PSMs for {len(best)} spectra")
+    for pid in dedup["PSMId"]:
+        require(pid in best[kof[pid]][1], "cli-wrong-winner", f"default run keeps {pid}, which is not a best PSM of its spectrum")
+    return {"seed": int(seed), "rows": n, "spectra": ns}
+
+
+def extra(tier, seed, shard, nshards, stats):
+    reps = 1 if tier == "quick" else 6
+    for r in range(reps):
+        cseed = seed * 100003 + shard * 101 + r
+        case = {"cli": True, "seed": cseed}
+        stats.evaluations += 1
+        try:
+            info = _cli_case(cseed)
+        except Rejected as rej:
+            stats.rejected += 1
+            stats.rejected_reasons[str(rej)[:80]] += 1
+            continue
+        except Violation as v:
+            stats.failure = {"case": case, "signature": v.signature, "message": v.message}
+            return
+        stats.observe(case, {"nontrivial": True, "classes": ["cli-skip-deduplication"], "counters": {"cli_runs": 2, "rows_checked": info["rows"]}})
